@@ -5,6 +5,7 @@ import (
 
 	"github.com/bronlabs/errs-go/errs"
 
+	"github.com/bronlabs/bron-crypto/pkg/base/serde"
 	"github.com/bronlabs/bron-crypto/pkg/base/utils"
 	"github.com/bronlabs/bron-crypto/pkg/base/utils/sliceutils"
 	"github.com/bronlabs/bron-crypto/pkg/proofs/sigma"
@@ -62,6 +63,25 @@ func (a *CommitmentCartesian[A0, A1]) Bytes() []byte {
 	return out
 }
 
+type commitmentCartesianDTO[A0, A1 sigma.Commitment] struct {
+	A0 A0
+	A1 A1
+}
+
+// UnmarshalCBOR deserialises and validates a composed commitment.
+func (a *CommitmentCartesian[A0, A1]) UnmarshalCBOR(data []byte) error {
+	dto, err := serde.UnmarshalCBOR[*commitmentCartesianDTO[A0, A1]](data)
+	if err != nil {
+		return errs.Wrap(err).WithMessage("cannot unmarshal commitment")
+	}
+	if dto == nil || utils.IsNil(dto.A0) || utils.IsNil(dto.A1) {
+		return ErrInvalidArgument.WithMessage("commitments cannot be nil")
+	}
+	a.A0 = dto.A0
+	a.A1 = dto.A1
+	return nil
+}
+
 var _ sigma.Commitment = (*CommitmentCartesian[sigma.Commitment, sigma.Commitment])(nil)
 
 // StateCartesian holds the prover's internal state for binary AND composition.
@@ -91,6 +111,25 @@ func (z *ResponseCartesian[Z0, Z1]) Bytes() []byte {
 	out = sliceutils.AppendLengthPrefixed(out, z.Z0.Bytes())
 	out = sliceutils.AppendLengthPrefixed(out, z.Z1.Bytes())
 	return out
+}
+
+type responseCartesianDTO[Z0, Z1 sigma.Response] struct {
+	Z0 Z0
+	Z1 Z1
+}
+
+// UnmarshalCBOR deserialises and validates a composed response.
+func (z *ResponseCartesian[Z0, Z1]) UnmarshalCBOR(data []byte) error {
+	dto, err := serde.UnmarshalCBOR[*responseCartesianDTO[Z0, Z1]](data)
+	if err != nil {
+		return errs.Wrap(err).WithMessage("cannot unmarshal response")
+	}
+	if dto == nil || utils.IsNil(dto.Z0) || utils.IsNil(dto.Z1) {
+		return ErrInvalidArgument.WithMessage("responses cannot be nil")
+	}
+	z.Z0 = dto.Z0
+	z.Z1 = dto.Z1
+	return nil
 }
 
 var _ sigma.Response = (*ResponseCartesian[sigma.Response, sigma.Response])(nil)
